@@ -1,0 +1,8 @@
+//go:build !verif
+
+package sample
+
+import "github.com/cronokirby/saferith"
+
+// verifPrimes is a hook for the verification harness; without the build tag verif it is a no-op.
+func verifPrimes() (p, q *saferith.Nat, ok bool) { return nil, nil, false }
